@@ -16,9 +16,13 @@ open PV PV.Model.Ndp PV.Model.Icmp6Hunt PV.Drv.Accept
           Xc<k>:<mac>:<eff 0|1>       StopHunt called          Xr<k>
           Cc<k>                       Close called             Cr<k>
           Rc<k>:<ra>                  ProcessPacket(RA) called Rr<k>:<0|1>      … returned error / nil
-          N<mac>:<router ip>          forged neighbour advertisement written
+          N<mac>:<router ip>          forged neighbour advertisement written (logged when WriteTo returns)
         every event is suffixed `@<ms>` (time since the start of the scenario).
-        hidden steps: check / wake of every loop, the atomic step of an open API call.
+        hidden steps: check / wake of every loop, the atomic step of an open API call (enabled only
+        while no loop holds the handler mutex across its batch – `State.holder`), the wake-up
+        section of an open ProcessPacket(RA) (it precedes the learning section and is a separate
+        critical section).  An `N` after the `Xr` / `Cr` of a StopHunt / Close of that MAC is
+        therefore rejected: the machine has no such interleaving.
 -/
 
 def hdrStr (h : RaHeader) : String :=
@@ -98,7 +102,7 @@ def outStr : Option Out → String
 def AState.key (a : AState) : String :=
   let ls := (List.range a.s.nloops).map (fun i => toHex (a.s.loops i).mac ++ ":" ++ pcStr (a.s.loops i).pc)
   let ops := a.open_.map (fun (k, op, o) => s!"{k}{opStr op}{outStr o}")
-  s!"{a.s.hunt.map toHex}|{a.s.closed}|{routersStr a.s}|{a.s.defaultRouter.map toHex}|{a.s.rep}|{ls}|{ops}|{a.waits}"
+  s!"{a.s.hunt.map toHex}|{a.s.closed}|{routersStr a.s}|{a.s.defaultRouter.map toHex}|{a.s.rep}|{ls}|{a.s.holder}|{ops}|{a.waits}"
 
 def evOf : Op → List Event
   | .start m c => [.startHunt m c]
@@ -139,12 +143,21 @@ def hidden (a : AState) : List AState :=
     | some _ => none
     | none => (stepAll a.s (evOf op)).map (fun (s', o) =>
         let wakes := match op with
-          | .ra _ _ => true
           | .close => true
           | _ => false
         { a with s := s', open_ := a.open_.map (fun x => if x.1 = k then (k, op, some o) else x),
                  waits := if wakes then a.waits.map (fun (i, t, _) => (i, t, true)) else a.waits }))
-  loops ++ ops
+  -- ProcessPacket(RA), first critical section: `if huntList.Len() > 0 && !closed` the wake-up channel
+  -- is replaced and the old one closed – every loop in its select (or on its way there: the channel
+  -- was read under the mutex) returns at once.  It needs the mutex like every other section.
+  let raWake := a.open_.filterMap (fun (_, op, done) =>
+    match op, done with
+    | .ra _ _, none =>
+      if a.s.holder.isNone ∧ ¬ a.s.hunt.isEmpty ∧ ¬ a.s.closed ∧ a.waits.any (fun w => ¬ w.2.2) then
+        some { a with waits := a.waits.map (fun (i, t, _) => (i, t, true)) }
+      else none
+    | _, _ => none)
+  loops ++ ops ++ raWake
 
 def applyObs (a : AState) (o : Obs) : List AState :=
   let a := { a with tprev := o.t }
@@ -201,7 +214,7 @@ def obsName (o : Obs) : String :=
   match o.k with
   | .call k op => s!"call {k} {opStr op}"
   | .ret k r => s!"return {k} {r}"
-  | .na m ip => s!"NA to {toHex m} for router {toHex ip} at {o.t} ms (a loop stays at least {minCycleMs} ms in its select unless an RA or Close wakes it)"
+  | .na m ip => s!"NA to {toHex m} for router {toHex ip} at {o.t} ms (no loop attacking this MAC can be writing: a loop stays at least {minCycleMs} ms in its select unless an RA or Close wakes it, passes its check only while the MAC is hunted and the handler open, and StopHunt / Close return only when no batch is in flight)"
 
 def machine : Machine AState Obs :=
   { key := AState.key, hidden := hidden, apply := applyObs, name := obsName,
